@@ -35,12 +35,6 @@ def encode_request(ev):
     if pay: out += b"\xff" + pay
     return out
 
-def encode_plain(t, code, mid, tok, pay):
-    """option-less datagram (everything this endpoint sends in these scenarios)"""
-    out = bytes([0x40 | TYPES.index(t) << 4 | len(tok), code]) + mid.to_bytes(2, "big") + bytes(tok)
-    if pay: out += b"\xff" + bytes(pay)
-    return out
-
 def parse_header(raw):
     """-> (type, code, mid, token bytes) of a datagram"""
     tkl = raw[0] & 15
@@ -356,7 +350,7 @@ class C04(fw.Property):
     gen_jobs = []
     model_imports = ["Verif.Model.C04"]
     quick_budget = 420
-    thorough_budget = 6000
+    thorough_budget = 5000
     search_factor = 2
     design_ref = "DESIGN.md section 9"
     technique = ("Coq invariant proofs over an executable state machine of the message-ID deduplication of MessageManager and of the "
@@ -366,21 +360,24 @@ class C04(fw.Property):
                   "(remote, mid) is handed to the application at most once per EXCHANGE_LIFETIME; a further copy inside the lifetime yields exactly "
                   "the last ACK/RST sent under that key since the first arrival (CON) or nothing (NON, or no ACK yet), changes no state and never "
                   "raises; the key is forgotten exactly when its expiry timer fires at first arrival + EXCHANGE_LIFETIME and the next copy is executed; "
-                  "other remotes' use of the same mid is independent. The model is tied to the code by running both on the same event scripts.")
+                  "other remotes' use of the same mid is independent; the repeated reply is an ACK unless the peer reused the live message ID for a "
+                  "confirmable non-request. The model is tied to the code by running both on the same event scripts.")
     level_note = ("Hand-written model (no translated kernel): trusted through the correspondence streams only. Not modelled: multicast, shutdown, "
                   "outgoing client requests, observe, block-wise, non-default TransportTuning of incoming messages, continuation after an internal "
                   "exception (KeyError/AssertionError branches are modelled as outputs and are unreachable in every run). A peer that reuses a live "
-                  "message ID for a ping or an unmatched CON response makes the remembered reply an RST; the theorems state this case explicitly.")
+                  "message ID for a ping or an unmatched CON response makes the remembered reply an RST (C04_impolite_peer_gets_rst); "
+                  "C04_dup_reply_is_ack carries that side condition explicitly.")
     rule = ("streams: scenario = one request (fast/slow/failing/missing/No-Response/forced CON or NON response; CON or NON) followed through its life with "
             "copies injected before completion, inside EMPTY_ACK_DELAY, after the empty ACK, after the separate response, after the peer's ACK/RST, and at "
             "EXCHANGE_LIFETIME-1/0/+1 us, 1-3 peers reusing the mid, own mid counter aligned with the peer's mids; lifetime = keys inserted at one instant, "
             "expiry by advance / split advance / single timer firings, copies at the boundary; random = event soup over small pools of mids, tokens, peers; "
             "adversarial = the same with pings, responses, ACK/RST-typed requests, reserved codes and token reuse colliding with live mids. "
+            "thorough adds enum = every script of length <= 3 over 7 symbols and of length 4 over 5 symbols (1024 scripts) on one key. "
             "Non-trivial = at least one copy of a CON request was re-answered and at least one request reached the site; distinct by full script.")
     trusted_base = ["hand-written Model/C04.v (validated by the four correspondence streams on every run: full output log with timestamps, "
                     "per-event cut, final _recent_messages / timers / piggy-back / exchange / backlog / incoming tables)",
                     "harness: virtual-time loop simloop.VLoop (ideal timer service), fake transport simnet.FakeMI/Addr, scripted random",
-                    "the plugin's own 20-line CoAP header/option encoder used to build the injected datagrams and to render the model's output"]
+                    "the plugin's own 15-line CoAP header/option encoder used to build the injected datagrams (outputs are rendered by Model/C04.wire_bytes)"]
     assumptions = ["timers fire at their due time in (due, creation) order (ideal loop); real-loop jitter is not modelled",
                    "default TransportTuning (EXCHANGE_LIFETIME 247 s, EMPTY_ACK_DELAY 0.1 s, MAX_RETRANSMIT 4) on incoming messages"]
 
@@ -399,6 +396,18 @@ class C04(fw.Property):
             elif x < 7: yield "lifetime", gen_lifetime(rng)
             elif x < 9: yield "random", gen_random(rng)
             else: yield "adversarial", gen_random(rng, adversarial=True)
+        if tier == "thorough":
+            # exhaustive small scope (validation of the tie, not a proof): every script of length <= 3 over 7 symbols and of
+            # length 4 over 5 symbols; one key of peer 0 (slow and fast copy), the same mid from peer 1, the two clock
+            # steps that add up to EXCHANGE_LIFETIME, the handler's answer, a single timer firing; own mid counter aligned
+            import itertools
+            M = 7
+            sym = [["recv", 0, "CON", 1, M, "01", "slow", None, ""], ["adv", EMPTY_ACK], ["respond", 0, 69, "aa", None, None],
+                   ["adv", LIFETIME - EMPTY_ACK], ["recv", 1, "NON", 1, M, "02", "fast", None, ""],
+                   ["recv", 0, "CON", 1, M, "01", "fast", None, ""], ["fire"]]
+            for L, alpha in ((1, sym), (2, sym), (3, sym), (4, sym[:5])):
+                for script in itertools.product(alpha, repeat=L):
+                    yield "enum", {"mid0": M, "uniform": 2000000, "events": [list(e) for e in script]}
 
     def impl(self, stream, inp):
         return run_impl(inp)
@@ -415,7 +424,7 @@ class C04(fw.Property):
             return ("C04:crash:" + res["where"], "driver raised %s: %s" % (res["harness_exception"], res.get("text")))
         live = {}     # (remote, mid) -> {"t0": first arrival, "reply": hex of the last ACK/RST sent under the key since then}
         last_start = {}
-        well_behaved = stream in ("scenario", "lifetime")
+        well_behaved = stream in ("scenario", "lifetime", "enum")
         for n, (ev, st) in enumerate(zip(inp["events"], res["steps"])):
             out = st["out"]; t = st["t"]
             for o in out:
